@@ -99,10 +99,12 @@ def make_input(cls, k, ureports, absdir):
     if cls == "syntax":
         # the last two are grammatical: the engine rejects them while building the project, through
         # MessageHandler.error() -> sys.exit() (a report file name with a forbidden character) - finding F51
-        bad = [base_project(k)[:-3] + " {", 'project p "P" 2025-01-06 +2w {', "this is not a project\n",
-               base_project(k) + "task { }\n",
-               base_project(k) + 'taskreport rq "what?" {\n  formats csv\n  columns id, start\n}\n',
-               base_project(k) + 'taskreport rs "a|b" {\n  formats html\n  columns id\n}\n'][k % 6]
+        # (shape 6 ends in a comment without a newline, which would swallow what is appended: use shape 0 of the same family)
+        plain = base_project(k if k % 8 != 6 else k - 6)
+        bad = [plain[:-3] + " {", 'project p "P" 2025-01-06 +2w {', "this is not a project\n",
+               plain + "task { }\n",
+               plain + 'taskreport rq "what?" {\n  formats csv\n  columns id, start\n}\n',
+               plain + 'taskreport rs "a|b" {\n  formats html\n  columns id\n}\n'][k % 6]
         return (bad + report_defs(ureports, absdir)).encode("utf-8")
     if cls == "blank":
         return [b"   \n\n", b"\n", b" \t \r\n  \n", b"\x0c\n "][k % 4]
